@@ -17,6 +17,7 @@ import shutil
 import subprocess
 
 from .. import common as C
+from ..gen import posmodel as PM
 from ..gen import vtext as V
 from .c12 import comment_texts, hx, parse_tokens, unhx
 
@@ -32,7 +33,7 @@ MANIFEST = {
             "of push_token is tied to veryl_migrator byte for byte on the item streams of generated old-grammar programs. Not proved: "
             "the two generated parsers and the formatter pass of `veryl migrate`; validated end to end (result parses, token stream = "
             "original minus `: Type`, comments kept, already-current programs untouched by the real CLI).",
-    "note": "Trusted: Coq kernel; model coq/Pos/MigrateModel.v (u32 as unbounded N with saturating subtraction); vh-pos harness "
+    "note": "Trusted: Coq kernel; model coq/Pos/MigrateModel.v (u32 as unbounded N with saturating subtraction), its OCaml extraction + driver; vh-pos harness "
             "(modes M, O, T); the real `veryl` CLI for the unchanged-if-current part; python generator (old grammar = current "
             "grammar + mandatory `: ScalarType` after a for-statement index, read off crates/migrator/veryl.par) and lexer derived "
             "from the .par files. Partial proof + validation, hence category other.",
@@ -249,6 +250,7 @@ def run(tier, seed, replay):
     res.coverage["trusted_base"] = C.std_trusted_base([
         "model: coq/Pos/MigrateModel.v transcribes Migrator::push_token / token / for_statement (crates/migrator/src/migrator.rs)",
         "vh-pos harness modes M (old Parser + Migrator::migrate), O (item stream of the old parser), T (current Parser)",
+        "OCaml extraction of the model (ExtrOcamlBasic only) + driver vp/gen/posmodel.py (trusted glue; cross-checked against vm_compute on a sample every run)",
         "the real `veryl` CLI (C.cli_build) for `migrate --check` / `migrate` on scratch projects",
         "python: old-grammar generator (vp/gen/vtext.py, for-index types read off crates/migrator/veryl.par), lexers derived from both .par files"])
     res.assumptions = [
@@ -296,8 +298,14 @@ def run(tier, seed, replay):
     quick = tier == "quick"
 
     # ---- old-grammar programs through Migrator + current Parser; correspondence with the model
-    cases = gen_old_cases(rng, 120 if quick else 5000, lx_old)
+    import time
+    tm = res.coverage.setdefault('timing_s', {})
+    t_ = time.time()
+    cases = gen_old_cases(rng, 200 if quick else 5000, lx_old)
+    tm['generate'] = round(time.time() - t_, 1)
+    t_ = time.time()
     outs = run_old(binary, cases)
+    tm['migrate_parse'] = round(time.time() - t_, 1)
     fails = []
     mcases = []
     midx = []
@@ -329,8 +337,23 @@ def run(tier, seed, replay):
             distinct.add(text)
         if len(res.coverage["samples"]) < 3:
             res.sample({"input": label, "old_head": text[:160], "migrated_head": r["mig"][:160]})
-    model = model_migrate(mcases) if mcases else []
-    mism = [midx[j] for j, mo in enumerate(model) if mo != outs[midx[j]]["mig"].encode()]
+    t_ = time.time()
+    okm, mbin, mlog = PM.build()
+    res.obligation("extracted model builds (OCaml, ExtrOcamlBasic only)", okm, mlog[-400:])
+    if not okm:
+        res.violation("model-build", "the extracted migrator model no longer builds: " + mlog[-300:],
+                      {"no_longer_checks": "correspondence Migrator::migrate = push_token fold", "log": mlog[-2000:]}, no_input=True)
+        return res.finish()
+    model = PM.migrate_eval(mbin, [(nl, [(l, c, tx) for (k, d, l, c, tx) in items if not (d and k == "t")]) for nl, items in mcases]) if mcases else []
+    tm['model_ocaml'] = round(time.time() - t_, 1)
+    t_ = time.time()
+    # a few item streams are also evaluated inside Coq (vm_compute); both evaluations must agree
+    ns = min(4, len(mcases))
+    coq_sample = model_migrate(mcases[:ns]) if ns else []
+    res.obligation("extracted model = vm_compute of the model inside Coq on %d item streams" % ns, coq_sample == model[:ns])
+    tm['model_coq_sample'] = round(time.time() - t_, 1)
+    t_ = time.time()
+    mism = [midx[j] for j, mo in enumerate(model) if mo is None or mo != outs[midx[j]]["mig"].encode()]
     res.obligation("correspondence Migrator::migrate = model push_token fold on %d item streams (byte for byte)" % len(mcases), not mism)
     res.coverage["correspondence_mismatches"] = len(mism)
     res.obligation("old-grammar generator accepted by the old parser (>= 90%%): %d of %d" % (n_mig, len(cases)), n_mig * 10 >= len(cases) * 9)
@@ -361,6 +384,7 @@ def run(tier, seed, replay):
     res.obligation("CLI: migrate --check passes and migrate leaves %d already-current programs byte-identical; %d old programs migrate" % (
         len(current), len(plain_old)), not [b for b in cli_bad if b[0] not in res.known])
 
+    tm['cli'] = round(time.time() - t_, 1)
     res.coverage["evaluations"] = n_mig + len(current) + len(plain_old)
     res.coverage["old_programs_migrated"] = n_mig
     res.coverage["current_programs_through_cli"] = len(current)
@@ -393,7 +417,7 @@ def run(tier, seed, replay):
         res.violation("correspondence", "Migrator::migrate and the model push_token fold differ; the property's oracle found no failing input",
                       {"no_longer_checks": "correspondence veryl_migrator::Migrator::migrate = VV.Pos.MigrateModel.push_token",
                        "stream": "old", "input": label, "text": text, "impl": outs[i]["mig"],
-                       "model": model[midx.index(i)].decode("utf8", "replace"), "mismatching_cases": len(mism)}, no_input=True)
+                       "model": (model[midx.index(i)] or b"<model evaluation failed>").decode("utf8", "replace"), "mismatching_cases": len(mism)}, no_input=True)
     if not proved and not res.violations:
         pf = getattr(res, "proof_failure", {})
         res.violation("proof", "Props/C23.v is no longer established: %s" % pf.get("where", "audit"),
